@@ -56,6 +56,10 @@ pub struct Case {
     /// thorough: enumerate every j instead of the generated ones
     #[serde(default)]
     pub all_j: bool,
+    /// pre-state continues after the forget: a non-instant prune marks the unused packs and this
+    /// many hours pass — the repository then holds marked packs whose keep-delete time is over
+    #[serde(default)]
+    pub aged: Option<u16>,
 }
 
 fn strategy(ctx: &Ctx) -> BoxedStrategy<Case> {
@@ -80,9 +84,10 @@ fn strategy(ctx: &Ctx) -> BoxedStrategy<Case> {
                 prune_cfg(),
                 prop::collection::vec(any::<u16>(), 3),
                 Just(thorough),
+                prop::option::weighted(0.3, prop_oneof![Just(1u16), Just(24u16), 24u16..2000]),
             )
         })
-        .prop_map(|(cfg, tree, pre, forget, pairing, edits_a, edits_b, mut prune, js, all_j)| {
+        .prop_map(|(cfg, tree, pre, forget, pairing, edits_a, edits_b, mut prune, js, all_j, aged)| {
             // the overlapping prune is a non-instant one whose keep-delete exceeds any backup here
             // (early-delete-index stays as generated: without instant-delete it must have no effect)
             prune.instant_delete = false;
@@ -98,6 +103,7 @@ fn strategy(ctx: &Ctx) -> BoxedStrategy<Case> {
                 prune,
                 js,
                 all_j,
+                aged,
             }
         })
         .boxed()
@@ -258,6 +264,26 @@ pub fn run(c: &Case, _ctx: &Ctx) -> Outcome {
     if let Err(e) = w.step(&HOp::Forget { sel: vec![c.forget] }) {
         fail!("pre-state: {e}");
     }
+    if let Some(hours) = c.aged {
+        let mut mark = c.prune.clone();
+        mark.instant_delete = false;
+        mark.keep_delete_23h = true;
+        for op in [HOp::Prune(mark), HOp::Age { hours }] {
+            if let Err(e) = w.step(&op) {
+                fail!("pre-state: {e}");
+            }
+        }
+        out = out.class_if(hours >= 24, "marked_packs_past_keep_delete_in_pre_state");
+    }
+    // packs marked for deletion in the pre-state whose keep-delete time (23 h) is over
+    let expired_marks: BTreeSet<Id> = if c.aged.is_some_and(|h| h >= 23) {
+        match w.index() {
+            Ok(v) => v.marked.keys().map(crate::inspect::to_id).collect(),
+            Err(e) => fail!("pre-state: {e}"),
+        }
+    } else {
+        BTreeSet::new()
+    };
     let base: Files = w.storage.files();
     let pre: Vec<(SnapshotFile, Arc<Flat>)> = w.live.iter().map(|l| (l.snap.clone(), l.model.clone())).collect();
     let mut tree_a = w.tree.clone();
@@ -370,7 +396,9 @@ pub fn run(c: &Case, _ctx: &Ctx) -> Outcome {
             if prune_involved {
                 // packs the overlapping (non-instant, keep-delete 23 h) prune marks must still exist
                 let now: BTreeSet<Id> = st.ids(FileType::Pack).into_iter().collect();
-                if let Some(gone) = packs_before.difference(&now).next() {
+                // (packs that were already marked in the pre-state and have waited out the
+                // keep-delete time may go)
+                if let Some(gone) = packs_before.difference(&now).find(|g| !expired_marks.contains(*g)) {
                     fail!("[{tag}] pack {gone:?} was removed by a non-instant prune with keep-delete 23h");
                 }
                 // is this schedule one where the backup used blobs of packs the prune marked?
